@@ -545,10 +545,12 @@ def pull_switch_rule(repo, rep):
         r8.sites += 1
         r8.functions.add(f.fq)
         first = None
-        for st in f.body:
+        from ..inline import Flat
+        from ..cfg import assertion_only
+        for st in Flat(f, keep=('_validate_pull_operations_enabled',)).body:
             calls = [c for c in ast.walk(st) if isinstance(c, ast.Call) and
                      (dotted(c.func) or '').startswith('self.')]
-            if isinstance(st, ast.Assert):
+            if assertion_only(st):
                 continue
             if calls:
                 first = calls[0]
